@@ -420,6 +420,17 @@ impl Monitor for C16 {
                     self.linear_exactness(ctx, b"ACACACAC", b"ACAC", &sce);
                     self.linear_exactness(ctx, b"ACAC", b"ACACACAC", &sce);
                 }
+                6 | 7 if !ctx.tiny() => {
+                    // graphs and queries with more than 256 nodes / symbols (node indices beyond one byte)
+                    let a4 = b"ACGT";
+                    let r = rng.bytes_over(a4, 300 + 40 * (g as usize - 6));
+                    let q = super::alnspec::related(rng, &r, a4, 12);
+                    let sc = gen_sc(rng);
+                    self.linear_exactness(ctx, &r, &q, &sc);
+                    self.linear_exactness(ctx, &q, &r, &sc);
+                    self.growth_history(ctx, rng, &r, &sc, a4, 3, g == 7);
+                    ctx.count("graphs_with_more_than_256_nodes", 1);
+                }
                 _ => {
                     let r = rng.bytes_over(&alpha, rng.clone().range(2, 14));
                     let sc = gen_sc(rng);
@@ -427,6 +438,14 @@ impl Monitor for C16 {
                 }
             }
             return;
+        }
+        if !ctx.tiny() && rng.chance(1, 400) {
+            let a4 = b"ACGT";
+            let r = rng.bytes_over(a4, rng.clone().range(100, 420));
+            let q = if rng.chance(1, 2) { super::alnspec::related(rng, &r, a4, rng.clone().range(1, 20)) } else { rng.bytes_over(a4, rng.clone().range(100, 420)) };
+            let sc = gen_sc(rng);
+            ctx.count("linear_alignments_longer_than_100", 1);
+            return self.linear_exactness(ctx, &r, &if q.is_empty() { vec![b'A'] } else { q }, &sc);
         }
         let maxr = ctx.by_tier(8, 30, 60);
         let rl = match rng.below(8) {
